@@ -475,6 +475,51 @@ def check_strcat_note(chk, tu):
                  'here (needs a filesystem reporting DT_UNKNOWN), therefore recorded as a note, not a finding.' % astdb.loc_str(cats[0]))
 
 
+def check_readlink(chk, tu):
+    """R14.6: path_readlink hands the guest buffer and its length to the host readlink and writes nothing else into guest memory
+    (the host call does not terminate the string; a terminator written by the wrapper lands outside the buffer when the target fills it)"""
+    eps = W.entry_points(tu)
+    for gen in ('preview1', 'unstable'):
+        f = eps['path_readlink'][gen]
+        chk.fn(f['name'])
+        paths = W.explore_entry(tu, f['name'], lambda it, st: [unk('instance'), 3, unk('path', 'unsigned int'), 5, unk('buf', 'unsigned int'),
+                                                             unk('buflen', 'unsigned int'), unk('res', 'unsigned int')],
+                                lambda: std_table(0), errno_value=5)
+        succ = [p for p in paths if p.ret == 0]
+        chk.require(succ, '%s/path_readlink has no success path' % gen)
+        site = 'path_readlink:guest-buffer'
+        for k, p in enumerate(succ):
+            calls = [a for n, a, l in p.events if n == 'extern:readlink']
+            ok_call = len(calls) == 1 and repr(pe.strip_casts(calls[0][1])) == '($gdata + $buf)' and repr(pe.strip_casts(calls[0][2])) == '$buflen'
+            chk.expect(ok_call, 'R14.6', '%s/path_readlink:host-call[%d]' % (gen, k),
+                       'host readlink is called with %r; expected the guest buffer (memory data + bufferPointer) and bufferLength'
+                       % ([[repr(x)[:60] for x in c] for c in calls],), site)
+            raw = [(n, a) for n, a, l in p.events if n.startswith('store-sym') and 'gdata' in repr(a[0])]
+            chk.expect(not raw, 'R14.6', '%s/path_readlink:no-extra-guest-writes[%d]' % (gen, k),
+                       'besides the host readlink the wrapper itself writes into guest memory at %s: when the link target fills the buffer '
+                       '(length == bufferLength) that byte lies outside the guest buffer' % (', '.join(repr(a[0])[:90] for n, a in raw),), site)
+            gs = [a for n, a, l in p.events if n == 'gstore']
+            ok_len = len(gs) == 1 and gs[0][0] == 32 and repr(pe.strip_casts(gs[0][1])) == '$res' and 'readlink(' in repr(gs[0][2])
+            chk.expect(ok_len, 'R14.6', '%s/path_readlink:length-result[%d]' % (gen, k),
+                       'the number of bytes is reported by %r; expected one 32-bit store of the host result at lengthPointer'
+                       % ([[repr(x)[:50] for x in g] for g in gs],), site)
+
+
+def check_raw_guest_writes(chk, tu):
+    """R14.6 (general form): no path-taking import writes guest memory byte-wise on its own"""
+    eps = W.entry_points(tu)
+    for imp in sorted(set(PATH_IMPORTS) | {'path_readlink', 'fd_prestat_dir_name', 'fd_prestat_get'}):
+        for gen, f in sorted(eps.get(imp, {}).items()):
+            try:
+                raw, n = W.raw_guest_writes(tu, f, lambda: std_table(1))
+            except pe.PEError as e:
+                chk.note('raw guest writes of %s/%s not decided: %s' % (gen, imp, str(e)[:80]))
+                continue
+            chk.expect(not raw, 'R14.6', '%s/%s:no-raw-guest-writes' % (gen, imp),
+                       '%s writes guest memory through %s itself (outside the typed store helpers and host calls bounded by the guest length)'
+                       % (imp, ', '.join(sorted(raw))), imp + ':raw-guest-write')
+
+
 def run(chk):
     chk.explanation = (
         'Each path_* import of both generations is partially evaluated with resolvePath as an oracle leaf that marks its output buffer: the '
@@ -493,8 +538,11 @@ def run(chk):
     check_invariant(chk, tu)
     check_readdir(chk, tu)
     check_strcat_note(chk, tu)
+    check_readlink(chk, tu)
+    check_raw_guest_writes(chk, tu)
     chk.floor('R14.1', 40)
     chk.floor('R14.2', 8)
     chk.floor('R14.3', 4)
     chk.floor('R14.4', 4)
     chk.floor('R14.5', 4)
+    chk.floor('R14.6', 6)
